@@ -11,7 +11,7 @@ import (
 
 func init() {
 	register("C19", propMeta{
-		Explanation: "E-TAINT + E-LOCK + E-CONST. O-1: in printMetrics every uint event counter of Metrics reaches the logger only as binCount(field); binCount has the ceil-to-8 shape (same constant 8 in the quotient and the product, Ceil not Floor/Round, or the integer form ((x+7)/8)*8); the sets 'counters incremented' = 'counters printed' = 'counters reset' agree, and the per-country maps created in NewMetrics are the ones reset. O-2: the rounded Prometheus counter's (total, value) pair is read and written only under its own mutex, inside one critical section per Inc, never through sync/atomic mixed with plain access, and value grows by the constant 8 only on the total > value edge. O-3: UpdateCountryStats/RecordIPAddress run with Metrics.lock in their entry lockset and every per-country count change lies behind the 'address not seen yet' edges. O-4: in ipsetsink the raw address reaches the sketch only through the keyed HMAC. O-5: the journal window predicate compares RecordingStart with from and RecordingEnd with to. Each is a necessary condition: e.g. a counter printed raw publishes a non-multiple of 8; a non-atomic pair publishes a value below the truth for some schedule. Added after the second seeding round: O-1d the matched figures (clientProxyMatchCount, ClientPollTotal{status=matched}) are incremented only on the edge on which the proxy's answer was received; O-5b every journal line is decoded into a record and a sketch created in that iteration; O-5c the journal reader uses no length-limited line scanner, or returns its Err() (D19). Added after the third seeding round: O-1e the guarded-by rows of Metrics and CountryStats are evaluated here too (an increment outside metrics.lock can be lost, publishing a count below the truth); O-4b RecordIPAddress is called from ProxyPolls itself on every path that updates the country statistics, and WriteIPSetToDisk resets the sketch and advances lastWriteTime on every way out after the chunk was written; O-4 no longer names maskIPAddress: the value added to the sketch must derive from hmac.New(_, ipMaskingKey).Sum.",
+		Explanation: "E-TAINT + E-LOCK + E-CONST. O-1: in printMetrics every uint event counter of Metrics reaches the logger only as binCount(field); binCount has the ceil-to-8 shape (same constant 8 in the quotient and the product, Ceil not Floor/Round, or the integer form ((x+7)/8)*8); the sets 'counters incremented' = 'counters printed' = 'counters reset' agree, and the per-country maps created in NewMetrics are the ones reset. O-2: the rounded Prometheus counter's (total, value) pair is read and written only under its own mutex, inside one critical section per Inc, never through sync/atomic mixed with plain access, and value grows by the constant 8 only on the total > value edge. O-3: UpdateCountryStats/RecordIPAddress run with Metrics.lock in their entry lockset and every per-country count change lies behind the 'address not seen yet' edges. O-4: in ipsetsink the raw address reaches the sketch only through the keyed HMAC. O-5: the journal window predicate compares RecordingStart with from and RecordingEnd with to. Each is a necessary condition: e.g. a counter printed raw publishes a non-multiple of 8; a non-atomic pair publishes a value below the truth for some schedule. Added after the second seeding round: O-1d the matched figures (clientProxyMatchCount, ClientPollTotal{status=matched}) are incremented only on the edge on which the proxy's answer was received; O-5b every journal line is decoded into a record and a sketch created in that iteration; O-5c the journal reader uses no length-limited line scanner, or returns its Err() (D19). Added after the third seeding round: O-1e the guarded-by rows of Metrics and CountryStats are evaluated here too (an increment outside metrics.lock can be lost, publishing a count below the truth); O-4b RecordIPAddress is called from ProxyPolls itself on every path that updates the country statistics, and WriteIPSetToDisk resets the sketch and advances lastWriteTime on every way out after the chunk was written; O-4 no longer names maskIPAddress: the value added to the sketch must derive from hmac.New(_, ipMaskingKey).Sum. Added after the fourth seeding round: O-1 follows each counter forward (taint analysis through tables, helpers and loops) to the logger, binCount being the only sanitiser; O-1f every decoded poll increments one of the two relay-extension counters on every path; O-4 the bytes written to the HMAC are the address string itself.",
 		NotDecided:  "floating-point exactness of binCount beyond 2^53, HyperLogLog accuracy, which events should be counted, the arithmetic correctness of rounding for all histories (only its shape is decided).",
 		Assumptions: []string{"math.Ceil, crypto/hmac and hyperloglog behave as documented", "lock identity is (type, field)"},
 	}, runC19)
@@ -47,28 +47,36 @@ func runC19(c *Ctx) {
 	printed := map[string]bool{}
 	incremented := map[string]bool{}
 	reset := map[string]bool{}
+	srcFns := helperFns(printM, 2)
 	for _, f := range counters {
-		// printed?
-		for _, fa := range fieldAddrsOf([]*ssa.Function{printM}, f) {
+		// printed? every load of the counter in printMetrics and its helpers is followed forward: it may
+		// reach code outside the repository (the logger, fmt) only through binCount
+		var loads []ssa.Value
+		var firstLoad ssa.Instruction
+		for _, fa := range fieldAddrsOf(srcFns, f) {
 			for _, r := range *fa.Referrers() {
-				ld, ok := r.(*ssa.UnOp)
-				if !ok {
-					continue
-				}
-				printed[f.Name()] = true
-				bad := false
-				for _, u := range *ld.Referrers() {
-					if _, dbg := u.(*ssa.DebugRef); dbg {
-						continue
-					}
-					ci, ok := u.(*ssa.Call)
-					if !ok || staticCallee(ci) != bin {
-						bad = true
-						c.viol("O-1 every published counter is binned", "printMetrics publishes Metrics."+f.Name(), p.instrPos(u), "counter value used in printMetrics other than as the argument of binCount: a raw count reaches the metrics log")
+				if ld, ok := r.(*ssa.UnOp); ok {
+					loads = append(loads, ld)
+					if firstLoad == nil {
+						firstLoad = ld
 					}
 				}
-				if !bad {
-					c.ok("O-1 every published counter is binned", "printMetrics publishes Metrics."+f.Name(), p.instrPos(ld), "reaches the logger only as binCount(field)")
+			}
+		}
+		if len(loads) > 0 {
+			printed[f.Name()] = true
+			tr := taintForward(p, loads, func(ci ssa.CallInstruction, i int) bool { return staticCallee(ci) == bin && i == 0 }, scope)
+			for _, u := range tr.Leaks {
+				c.viol("O-1 every published counter is binned", "printMetrics publishes Metrics."+f.Name(), p.instrPos(u), "counter value used in printMetrics other than as the argument of binCount: a raw count reaches the metrics log")
+			}
+			for _, u := range tr.Lost {
+				c.undecided("O-1 every published counter is binned", "printMetrics publishes Metrics."+f.Name(), p.instrPos(u), "the counter value is stored where the analysis cannot follow it")
+			}
+			if len(tr.Leaks) == 0 && len(tr.Lost) == 0 {
+				if tr.Sanitised > 0 {
+					c.ok("O-1 every published counter is binned", "printMetrics publishes Metrics."+f.Name(), p.instrPos(firstLoad), "reaches the logger only as binCount(field)")
+				} else {
+					c.okTrivial("O-1 every published counter is binned", "printMetrics publishes Metrics."+f.Name(), p.instrPos(firstLoad), "read but neither binned nor published")
 				}
 			}
 		}
@@ -236,6 +244,8 @@ func runC19(c *Ctx) {
 	}
 	// ---- O-4b: the journal sees every poll's address; a chunk holds exactly its interval ----
 	c.checkJournalFeeding()
+	// ---- O-1f: every decoded poll is counted as with or without the relay-URL extension ----
+	c.checkEveryPollClassified()
 	// ---- O-5: window predicate orientation ----
 	c.checkWindowPredicate()
 	// ---- O-5c: the journal is read to its end or the reader says so ----
@@ -466,6 +476,48 @@ func (c *Ctx) checkIPSetSink() {
 			}
 		}
 	}
+	// what the MAC is computed over is the address text itself: bytes derived from it by a parser or a
+	// normaliser (ParseIP().To4() is nil for every IPv6 address) are not injective, and distinct addresses
+	// collapse into one sketch entry
+	{
+		nW := 0
+		fns := []*ssa.Function{add}
+		for f := range maskFns {
+			fns = append(fns, f)
+		}
+		for _, fn := range fns {
+			for _, ci := range callsIn(fn) {
+				cn := calleeName(ci)
+				if cn != "(hash.Hash).Write" && cn != "(io.Writer).Write" {
+					continue
+				}
+				hm, _, ok := callResult(ci.Common().Value)
+				if !ok || !isCallTo(hm, "crypto/hmac.New") {
+					continue
+				}
+				nW++
+				arg := ci.Common().Args[0]
+				for {
+					if cv, okc := arg.(*ssa.Convert); okc {
+						arg = cv.X
+						continue
+					}
+					if ct, okc := arg.(*ssa.ChangeType); okc {
+						arg = ct.X
+						continue
+					}
+					break
+				}
+				src := xstrip(arg)
+				_, isPar := src.(*ssa.Parameter)
+				okSrc := isPar && types.Identical(src.Type().Underlying(), types.Typ[types.String])
+				c.check(okSrc, rule, "the keyed hash is computed over the address text itself", p.instrPos(ci), "[]byte(address)", "the bytes written to the MAC are not the address string as given (they pass through a parser or normaliser): two different addresses can yield the same input, e.g. a nil To4() for every IPv6 address, and are counted as one")
+			}
+		}
+		if nW == 0 {
+			c.undecided(rule, "the keyed hash is computed over the address text itself", p.Pos(add.Pos()), "no Write on the HMAC found")
+		}
+	}
 	isMasked := false
 	for _, d := range deepCalls(add, 2, "(*github.com/clarkduvall/hyperloglog.HyperLogLogPlus).Add") {
 		ci, ok := d.In.(ssa.CallInstruction)
@@ -662,28 +714,25 @@ func (c *Ctx) checkJournalFeeding() {
 	if rec == nil || pp == nil || ucs == nil {
 		c.undecided(rule, "RecordIPAddress/ProxyPolls/UpdateCountryStats", "-", "anchor does not resolve")
 	} else {
-		callers := p.realCallers(rec)
-		okCallers := len(callers) > 0
-		var ucsCall ssa.CallInstruction
-		for _, ci := range callsIn(pp) {
-			if staticCallee(ci) == ucs {
-				ucsCall = ci
-			}
+		isRecord := func(in ssa.Instruction) bool {
+			ci, ok := in.(ssa.CallInstruction)
+			return ok && staticCallee(ci) == rec
 		}
-		for _, ci := range callers {
-			if !belongsTo(ci.Parent(), pp) {
-				okCallers = false
-				c.viol(rule, p.FnName(ci.Parent())+" calls RecordIPAddress", p.instrPos(ci), "the journal is fed from a place other than ProxyPolls (for example from behind UpdateCountryStats' already-seen returns): an address reaches a chunk only on its first poll of the metrics period and later chunks under-count")
+		n := 0
+		for _, d := range deepCalls(pp, 2, funcFullName(ucs)) {
+			u, ok := d.Top.(ssa.CallInstruction)
+			if !ok || staticCallee(d.In.(ssa.CallInstruction)) != ucs {
+				continue
 			}
+			n++
+			// wherever the per-country statistics are updated the journal is fed too: the
+			// call itself (if UpdateCountryStats records on all of its paths), the same
+			// block, or every way out from there
+			path := escapesWithout(u.Block(), isRecord)
+			c.check(path == nil, rule, "ProxyPolls feeds the journal on every path that updates the country statistics", p.instrPos(u), "", "a poll can update the per-country statistics without its address being recorded in the journal (for example RecordIPAddress sits behind UpdateCountryStats' already-seen returns): an address reaches a chunk only on its first poll of the metrics period and later chunks under-count", p.pathString(path)...)
 		}
-		if okCallers && ucsCall != nil {
-			// wherever the country statistics are updated the journal is fed too (same paths)
-			for _, ci := range callers {
-				if ci.Parent() == pp {
-					same := ci.Block() == ucsCall.Block() || (reachPath(ucsCall.Block(), ci.Block(), nil) != nil && escapesWithoutInstr(ucsCall, ci) == nil)
-					c.check(same, rule, "ProxyPolls feeds the journal on every path that updates the country statistics", p.instrPos(ci), "", "a path updates the per-country statistics without recording the address in the journal")
-				}
-			}
+		if n == 0 {
+			c.okTrivial(rule, "ProxyPolls feeds the journal on every path that updates the country statistics", p.Pos(pp.Pos()), "UpdateCountryStats is not called from ProxyPolls: obligation not evaluated here")
 		}
 	}
 	w := p.Fn("common/ipsetsink/sinkcluster", "(*ClusterWriter).WriteIPSetToDisk")
@@ -744,4 +793,52 @@ func escapesWithoutInstr(a, b ssa.Instruction) []*ssa.BasicBlock {
 		}
 	}
 	return out
+}
+
+// checkEveryPollClassified: from the successful decode of a proxy poll every path
+// of ProxyPolls to a return increments proxyPollWithRelayURLExtension or
+// proxyPollWithoutRelayURLExtension: a poll that is rejected later (relay
+// pattern) still is a poll with or without the extension. A classification that
+// treats "rejected" as a third, exclusive case publishes the two counts too low.
+func (c *Ctx) checkEveryPollClassified() {
+	p := c.P
+	rule := "O-1f every poll is counted with or without the relay-URL extension"
+	pp := p.Fn("broker", "(*IPC).ProxyPolls")
+	withF := p.Field("broker", "Metrics", "proxyPollWithRelayURLExtension")
+	withoutF := p.Field("broker", "Metrics", "proxyPollWithoutRelayURLExtension")
+	if pp == nil || withF == nil || withoutF == nil {
+		c.undecided(rule, "ProxyPolls / relay-URL extension counters", "-", "anchor does not resolve")
+		return
+	}
+	var dec *ssa.Call
+	for _, ci := range callsIn(pp) {
+		if cc, ok := ci.(*ssa.Call); ok && strings.HasPrefix(calleeName(ci), "common/messages.DecodeProxyPollRequest") {
+			dec = cc
+		}
+	}
+	if dec == nil {
+		c.undecided(rule, "ProxyPolls decodes the poll", p.Pos(pp.Pos()), "decode call not found")
+		return
+	}
+	isCount := func(in ssa.Instruction) bool {
+		st, ok := in.(*ssa.Store)
+		if !ok {
+			return false
+		}
+		_, f, okf := fieldOfAddr(st.Addr)
+		if !okf || (f != withF && f != withoutF) {
+			return false
+		}
+		bo, okb := st.Val.(*ssa.BinOp)
+		return okb && bo.Op == token.ADD
+	}
+	okE := errNilEdges(pp, dec, errResultIndex(dec.Call.Signature()))
+	good := len(okE) > 0
+	var wp []*ssa.BasicBlock
+	for _, e := range okE {
+		if pth := escapesWithout(e.To(), isCount); pth != nil {
+			good, wp = false, pth
+		}
+	}
+	c.check(good, rule, "ProxyPolls counts every decoded poll in one of the two counters", p.instrPos(dec), "on every path from the successful decode", "a decoded poll can be answered without having been counted as with or without the extension (for example a poll whose pattern is rejected): the published counts are below the number of polls", p.pathString(wp)...)
 }
